@@ -63,6 +63,7 @@ class TreeSpec:
     r_sub: str = "none"
     init_letter: str = ""
     sibling: str = "none"  # an unrelated sibling package whose __init__ imports a declaration of the module: none | priv_alias | alias | name | star
+    shadow: bool = False  # a descendant package (no re-exports) holding a module with the SAME file name and its own declarations
     # filled by build()
     files: dict[str, str] = field(default_factory=dict)
     decls: list[GDecl] = field(default_factory=list)
@@ -75,7 +76,7 @@ class TreeSpec:
     @property
     def label(self) -> str:
         place = f"d{self.depth}:{'_' if self.sub_private else ''}{'sub/' if self.depth == 2 else ''}{'_' if self.mod_private else ''}m"
-        return f"{place}|{'+'.join(self.letters)}{'|init:' + self.init_letter if self.init_letter else ''}{'|sib:' + self.sibling if self.sibling != 'none' else ''}|root:{self.r_root}|sub:{self.r_sub}"
+        return f"{place}|{'+'.join(self.letters)}{'|init:' + self.init_letter if self.init_letter else ''}{'|sib:' + self.sibling if self.sibling != 'none' else ''}{'|shadow' if self.shadow else ''}|root:{self.r_root}|sub:{self.r_sub}"
 
     @property
     def root_pkg(self) -> str:
@@ -282,6 +283,26 @@ def build(spec: TreeSpec) -> TreeSpec | None:
             g.locations = set(owner.locations)
             g.is_exception = owner.is_exception
             g.dont_care = owner.dont_care
+    shadow_modules: list[str] = []
+    if spec.shadow:
+        # same module file name below a descendant package that re-exports nothing: only the names decide
+        if spec.depth != 1:
+            return None
+        sh_pkg, sh_dir = f"{root}.shd{T}", f"{rdir}/shd{T}"
+        sh_text, sh_decls = _module_source("s" + T, spec.letters)
+        files[f"{sh_dir}/__init__.py"] = ""
+        files[f"{sh_dir}/{mod}.py"] = sh_text + "\n"
+        sh_top: dict[str, GDecl] = {}
+        for kind, name, chain, letter, is_exc in sh_decls:
+            g = GDecl(kind, name, f"{sh_pkg}.{mod}", chain, letter, is_exception=is_exc)
+            g.locations = {f"{sh_pkg}.{mod}"}
+            if not chain:
+                g.public = name_public(name) and name_public(mod)
+                sh_top[name] = g
+            else:
+                g.public = sh_top[chain[0]].public and all(name_public(c) for c in chain[1:]) and name_public(name)
+            decls.append(g)
+        shadow_modules = [sh_pkg, f"{sh_pkg}.{mod}"]
     for kind, name, chain, letter, _ in idecls:
         g = GDecl(kind, name, root, chain, letter, in_init=True)
         g.public = name_public(name)
@@ -289,7 +310,7 @@ def build(spec: TreeSpec) -> TreeSpec | None:
         decls.append(g)
     spec.files = files
     spec.decls = decls
-    spec.modules = [root, mod_dotted] + ([f"{root}.{sub}"] if spec.depth == 2 else [])
+    spec.modules = [root, mod_dotted] + ([f"{root}.{sub}"] if spec.depth == 2 else []) + shadow_modules
     return spec
 
 
@@ -307,6 +328,13 @@ def enumerate_trees(tier: str) -> list[TreeSpec]:
             for sib in ("priv_alias", "alias", "name", "star"):
                 for r in ("none", "name"):
                     s = build(TreeSpec(next(tid), 1, mod_private, False, letters, r, "none", "", sib))
+                    if s:
+                        specs.append(s)
+        # depth 1: a descendant package has a module with the same file name (nothing re-exports that one)
+        if len(letters) == 1 or letters == ("pf", "pc"):
+            for mod_private in (False, True):
+                for r in R_FORMS:
+                    s = build(TreeSpec(next(tid), 1, mod_private, False, letters, r, "none", "", "none", True))
                     if s:
                         specs.append(s)
         # depth 1
